@@ -58,6 +58,9 @@ type socket struct {
 	pingIntervalTimer atomic.Pointer[utils.Timer]
 
 	flushMu sync.Mutex
+	// packets accepted by sendPacket and not yet handed to a transport (buffered, or taken
+	// by a flush that is still running its listeners)
+	pending atomic.Int64
 }
 
 func (s *socket) Protocol() int {
@@ -350,7 +353,8 @@ func (s *socket) MaybeUpgrade(transport transports.Transport) {
 			s.setTransport(transport)
 			s.Emit("upgrade", transport)
 			s.flush()
-			if s.ReadyState() == "closing" {
+			// with packets still waiting, the Close that is pending on "drain" closes the transport
+			if s.ReadyState() == "closing" && s.pending.Load() == 0 {
 				transport.Close(func() {
 					s.OnClose("forced close")
 				})
@@ -520,6 +524,7 @@ func (s *socket) sendPacket(
 		// exports packetCreate event
 		s.Emit("packetCreate", packet)
 
+		s.pending.Add(1)
 		s.writeBuffer.Push(packet)
 
 		// add send callback to object, if defined
@@ -555,6 +560,7 @@ func (s *socket) flush() {
 				s.sentCallbackFn.Push(nil)
 			}
 			s.Transport().Send(wbuf)
+			s.pending.Add(-int64(len(wbuf)))
 			s.Emit("drain")
 			s.server.Emit("drain", s)
 		}
@@ -587,12 +593,20 @@ func (s *socket) Close(discard bool) {
 	verifhook.At("socket.close.tested", s.id)
 	socket_log.Debug("readyState updated from %s to %s", "open", "closing")
 
-	if length := s.writeBuffer.Len(); length > 0 {
+	// everything accepted before Close goes out first: that includes a batch which a flush in
+	// progress has already taken out of the buffer, and packets buffered while that flush ran
+	if length := s.pending.Load(); length > 0 {
 		socket_log.Debug("there are %d remaining packets in the buffer, waiting for the 'drain' event", length)
-		s.Once("drain", func(...any) {
+		var onDrain events.Listener
+		onDrain = func(...any) {
+			if s.pending.Load() > 0 {
+				return
+			}
+			s.RemoveListener("drain", onDrain)
 			socket_log.Debug("all packets have been sent, closing the transport")
 			s.closeTransport(discard)
-		})
+		}
+		s.On("drain", onDrain)
 		return
 	}
 
